@@ -80,6 +80,14 @@ struct vp_adapter {
   void expand(const V &x, const V &nx) { d.expand(x, nx); }
   void normalize() { d.normalize(); }
   void minimize() { d.minimize(); }
+  void operator-=(const V &x) { d -= x; }
+  void assign_bool_cst(const V &b, const C &c) { d.assign_bool_cst(b, c); }
+  void weak_assign_bool_cst(const V &b, const C &c) { d.weak_assign_bool_cst(b, c); }
+  void assign_bool_var(const V &b, const V &b1, bool neg) { d.assign_bool_var(b, b1, neg); }
+  void weak_assign_bool_var(const V &b, const V &b1, bool neg) { d.weak_assign_bool_var(b, b1, neg); }
+  void apply_binary_bool(bool_operation_t op, const V &b, const V &b1, const V &b2) { d.apply_binary_bool(op, b, b1, b2); }
+  void assume_bool(const V &b, bool neg) { d.assume_bool(b, neg); }
+  void select_bool(const V &b, const V &bc, const V &b1, const V &b2) { d.select_bool(b, bc, b1, b2); }
   interval<z_number> at(const V &x) const { return d.at(x); }
   bool entails(const C &c) const { return d.entails(c); }
   CS to_linear_constraint_system() const { return d.to_linear_constraint_system(); }
